@@ -16,9 +16,9 @@ Inductive rtarget := TFile (path : nat) | TAmp1 | TAmp2.   (* item.2: a name, or
 Record redir := mkr { r_fd : sfd; r_app : bool; r_to : rtarget }.
 Inductive sfrom := FNone | FFile (path : nat) | FHere.
 Inductive skind := KExt | KBuiltin | KNotFound.
-(* s_prints: for a builtin run in the shell itself, its calls of print_stdout (true) /
+(* s_prints: for a builtin run in the shell itself, its calls (stream, text is empty) of print_stdout (true) /
    print_stderr (false) in order *)
-Record stage := mks { s_from : sfrom; s_redirs : list redir; s_kind : skind; s_prints : list bool }.
+Record stage := mks { s_from : sfrom; s_redirs : list redir; s_kind : skind; s_prints : list (bool * bool) }.
 Record plan := mkplan { p_stages : list stage; p_capture : bool }.
 
 (* paths 0 and 1 stand for files literally named &1 and &2 (what 1>&1 / 2>&2 create) *)
@@ -274,7 +274,9 @@ Definition std_fds (rs : list redir) (p : proc) : proc * option nat * option nat
 
 (* print_stdout (is_out = true) / print_stderr (false) of a builtin that is alone on its line:
    returns the shell after the call and the object the text was written to *)
-Definition builtin_print (rs : list redir) (is_out : bool) (p : proc) : proc * option obj :=
+(* the descriptor is OWNED from _get_dupped_std*_fd on and closed on EVERY path (File::from_raw_fd ... drop), whatever the
+   text: an empty text only skips the second write (the newline) *)
+Definition builtin_print (rs : list redir) (is_out empty : bool) (p : proc) : proc * option obj :=
   let '(p, o, e) := std_fds rs p in
   let '(mine, other) := if is_out then (o, e) else (e, o) in
   let p := match other with Some fd => p_close fd p | None => p end in
@@ -283,14 +285,17 @@ Definition builtin_print (rs : list redir) (is_out : bool) (p : proc) : proc * o
                   | None => p_dup (if is_out then 1 else 2) p
                   end in
   match fd with
-  | Some fd => (p_close fd (p_ev (EWrite fd) p), option_map fst (lookup (tab p) fd))
+  | Some fd =>
+    let pw := p_ev (EWrite fd) p in
+    let pw := if empty then pw else p_ev (EWrite fd) pw in
+    (p_close fd pw, option_map fst (lookup (tab p) fd))
   | None => (p, None)
   end.
 
-Fixpoint builtin_prints (rs : list redir) (prints : list bool) (p : proc) : proc * list (option obj) :=
+Fixpoint builtin_prints (rs : list redir) (prints : list (bool * bool)) (p : proc) : proc * list (option obj) :=
   match prints with
   | [] => (p, [])
-  | b :: rest => let '(p1, o) := builtin_print rs b p in
+  | b :: rest => let '(p1, o) := builtin_print rs (fst b) (snd b) p in
                  let '(p2, os) := builtin_prints rs rest p1 in (p2, o :: os)
   end.
 
@@ -319,6 +324,12 @@ Definition is_single_builtin (pl : plan) : bool :=
   | _ => false
   end.
 
+(* /repo 9dba15b CommandLine::runs_in_shell: a builtin alone on its line runs in the shell itself -- except when its output is
+   captured AND it carries redirections: then it is a one-stage pipeline whose stage is a builtin in a forked child *)
+Definition runs_in_shell (pl : plan) : bool :=
+  is_single_builtin pl &&
+  negb (p_capture pl && match p_stages pl with [st] => match s_redirs st with [] => false | _ => true end | _ => false end).
+
 (* capture pipes, core.rs:188-209; their pipe() calls are number m and m+1 (m = stage pipes).
    NOTE the pipeline2 / pipeline3 error returns do not release the stage pipes. *)
 Definition cap_release (pipes : list (nat * nat)) (sh : proc) : proc :=
@@ -342,7 +353,7 @@ Definition run_pipeline (pl : plan) (sh : proc) : result :=
     else
       let '(sh, capo, cape, failed) := mk_capture (p_capture pl) m pipes sh in
       if failed then mkres sh [] true []
-      else if is_single_builtin pl then
+      else if runs_in_shell pl then
         (* try_run_builtin in the shell itself; the capture pipes are NOT closed on this path;
            with capture the text goes into the CommandResult, no descriptor is touched *)
         let done (q : proc) : proc :=
@@ -443,8 +454,3 @@ Fixpoint ev_opens (l : list ev) : list (nat * fmode) :=
   | _ :: r => ev_opens r
   end.
 
-(* builtins/utils.rs print_stdout_with_capture / print_stderr_with_capture, for a builtin that runs in the shell itself with
-   capture on (`$(builtin ...)`): `if capture { cr.stdout = info } else { print_stdout(..) }` -- the text goes into the
-   CommandResult (i.e. the substitution resp. the discarded captured stderr) WHATEVER the command's own redirections say;
-   the redirection targets are only probed (created / truncated) by run_single_program. *)
-Definition captured_builtin_text (rs : list redir) : obj * obj := (OPipeW PCapOut, OPipeW PCapErr).
